@@ -366,7 +366,9 @@ def main(pid, tier, seed):
         optsets = [(['-c', '0'], dict(coverage=0)), (['-c', '0.0'], dict(coverage=0.0)), (['-c', '1'], dict(coverage=1)),
                    (['--coverage', '1.0'], dict(coverage=1.0)), (['-c', '0.35'], dict(coverage=0.35)), ([], dict()),
                    (['-n', '2'], dict(ngram=2)), (['--ngram', '5', '-c', '0.9'], dict(ngram=5, coverage=0.9)),
-                   (['-a', '20'], dict(alphabet_size=20)), (['-c', '1e-9'], dict(coverage=1e-9))]
+                   (['-a', '20'], dict(alphabet_size=20)), (['-c', '1e-9'], dict(coverage=1e-9)),
+                   (['--prefixcount'], dict(prefixcount=True)), (['--multiword', 'MW'], dict(multiword='MW')),
+                   (['--comments', 'a comment, with = and [brackets]'], dict())]
         cjobs = []
         for li in range(2 if tier == 'quick' else 12):
             pool = rng.choice(list(POOLS))
@@ -377,8 +379,25 @@ def main(pid, tier, seed):
             with open(tf, 'wb') as f:
                 for pw in pws:
                     f.write(pw.encode('utf-8') + b'\n')
-            for oi, (args, kw) in enumerate(optsets if tier != 'quick' else optsets[:6] + rng.sample(optsets[6:], 1)):
-                cjobs.append((li, oi, tf, pws, args, kw))
+            # the same list in `uniq -c` form, and a word list to pre-train the multi-word detector with
+            tfc = os.path.join(cwork, 'list%d_counted.txt' % li)
+            cnt_ = {}
+            for pw in pws:
+                cnt_[pw] = cnt_.get(pw, 0) + 1
+            with open(tfc, 'wb') as f:
+                for pw, n_ in cnt_.items():
+                    f.write(('%7d %s' % (n_, pw)).encode('utf-8') + b'\n')
+            mwf = os.path.join(cwork, 'words%d.txt' % li)
+            with open(mwf, 'wb') as f:
+                for w_ in ['pass', 'word', 'love', 'monkey', 'dragon'] * 6:
+                    f.write(w_.encode() + b'\n')
+            for oi, (args, kw) in enumerate(optsets if tier != 'quick' else optsets[:6] + rng.sample(optsets[6:], 2)):
+                args = [mwf if a_ == 'MW' else a_ for a_ in args]
+                kw = {k_: (mwf if v_ == 'MW' else v_) for k_, v_ in kw.items()}
+                counted_ok = not any(pw != pw.strip() or '  ' in pw for pw in pws)
+                if kw.get('prefixcount') and not counted_ok:
+                    continue
+                cjobs.append((li, oi, tfc if kw.get('prefixcount') else tf, pws, args, kw))
 
         def run_cli(job):
             li, oi, tf, pws, args, kw = job
